@@ -99,6 +99,10 @@ func buildOrCount(c *ShardCtx, text string, gen core.Gen) *core.Built {
 		c.Res.Rejected++
 		return nil
 	}
+	if b.VariantBroken {
+		c.Res.Counters["runtime_variant_does_not_compile"]++
+		return nil
+	}
 	if len(b.Problems) > 0 || b.Prefix == nil {
 		c.Res.Counters["emitted_code_problem"]++
 		if len(b.Problems) > 0 && len(c.Res.Counters) < 40 {
